@@ -40,17 +40,23 @@ def mc_register(tag, declset, slots, invariants, properties, workers=8, timeout=
 
 
 def tlaps_leg(theorems):
-    """TLAPS proofs of the algebraic core for unbounded width (spec/RegisterProofs.tla)"""
+    """TLAPS proofs of the algebraic core for unbounded width (spec/RegisterProofs.tla), run in a private directory so that
+    concurrent checks cannot disturb each other's proof cache"""
     import shutil as _sh
-    _sh.rmtree(os.path.join(vlib.SPEC, ".tlacache"), ignore_errors=True)
+    import uuid
+    d = os.path.join(WORK, "tlaps", uuid.uuid4().hex[:10])
+    os.makedirs(d)
+    _sh.copy(os.path.join(vlib.SPEC, "RegisterProofs.tla"), d)
     t0 = time.time()
-    rc, out = vlib.sh(["timeout", "900", "tlapm", "--threads", "8", "RegisterProofs.tla"], cwd=vlib.SPEC)
-    _sh.rmtree(os.path.join(vlib.SPEC, ".tlacache"), ignore_errors=True)
+    rc, out = vlib.sh(["timeout", "900", "tlapm", "--threads", "4", "--cleanfp", "RegisterProofs.tla"], cwd=d)
+    if not re.search(r"All (\d+) obligations? proved", out):
+        rc, out = vlib.sh(["timeout", "900", "tlapm", "--threads", "4", "--cleanfp", "RegisterProofs.tla"], cwd=d)   # one retry
+    _sh.rmtree(d, ignore_errors=True)
     m = re.search(r"All (\d+) obligations? proved", out)
     if rc != 0 or not m:
         raise ToolError("tlapm did not prove RegisterProofs.tla:\n" + out[-2000:])
     return {"module": "RegisterProofs.tla", "theorems_used": theorems, "obligations": int(m.group(1)), "discharged": int(m.group(1)),
-            "checker_cmd": "tlapm --threads 8 RegisterProofs.tla", "wall_s": round(time.time() - t0, 1),
+            "checker_cmd": "tlapm --threads 4 --cleanfp RegisterProofs.tla", "wall_s": round(time.time() - t0, 1),
             "scope": "unbounded register width, arbitrary position sequences (Seq(Nat)); binds to the code only through the trace legs"}
 
 
@@ -697,7 +703,7 @@ def c16(pid, tier, seed, t0):
     _, nc = vlib.corpus("nc")
     _, cust = vlib.corpus("cust")
     rnd = gen_random(tier, seed, "overlap", "c16", 100, 1000)
-    decls = copyd(star) + copyd(arr) + copyd(nc) + copyd(rnd)
+    decls = copyd(star) + copyd(arr) + copyd(nc) + copyd(rnd) + copyd(cust)[:: q(tier, 3, 1)]
     if tier == "thorough":
         decls += tall_chunks(lambda d, f: f["ranges"][0][1] >= d["n"] - 2 or f["ranges"][0][0] <= 1 or rustgen.width(f) in (1, 7, 8, 9, 31, 32, 33, 63, 64, 65))
     if tier == "quick":
